@@ -3,6 +3,7 @@ package props
 import (
 	"fmt"
 	"math/big"
+	"strconv"
 	"strings"
 
 	"verif/internal/harness"
@@ -42,6 +43,7 @@ func vBool(b bool) V {
 	}
 	return V{k: kBool, i: big.NewInt(0)}
 }
+func vFloat(f float64) V { return V{k: kFloat, f: f} }
 func vStr(s string) V  { return V{k: kStr, s: s} }
 func vTuple(xs ...V) V { return V{k: kTuple, items: xs} }
 func vList(xs ...V) V  { return V{k: kList, items: xs} }
@@ -108,6 +110,8 @@ func (v V) Lit() string {
 		return "None"
 	case kStr:
 		return pyStrLit(v.s)
+	case kFloat:
+		return strconv.FormatFloat(v.f, 'g', 17, 64) + floatDot(v.f)
 	case kTuple:
 		var p []string
 		for _, x := range v.items {
@@ -129,6 +133,29 @@ func (v V) Lit() string {
 		return "O"
 	}
 	return "?"
+}
+
+func floatDot(f float64) string {
+	s := strconv.FormatFloat(f, 'g', 17, 64)
+	if strings.ContainsAny(s, ".e") {
+		return ""
+	}
+	return ".0"
+}
+
+// numRat: exact rational value of an int/bool/finite float
+func (v V) numRat() (*big.Rat, bool) {
+	switch v.k {
+	case kInt, kBool:
+		return new(big.Rat).SetInt(v.i), true
+	case kFloat:
+		r := new(big.Rat)
+		if r.SetFloat64(v.f) == nil {
+			return nil, false
+		}
+		return r, true
+	}
+	return nil, false
 }
 
 func (v V) isNum() bool { return v.k == kInt || v.k == kBool }
@@ -291,6 +318,16 @@ func vEqual(a, b V) (bool, error) {
 	if a.isNum() && b.isNum() {
 		return a.i.Cmp(b.i) == 0, nil
 	}
+	if a.k == kFloat || b.k == kFloat {
+		ra, oka := a.numRat()
+		rb, okb := b.numRat()
+		if oka && okb {
+			return ra.Cmp(rb) == 0, nil // int/float comparisons are exact
+		}
+		if (a.k == kFloat && (b.k == kNone || b.k == kStr)) || (b.k == kFloat && (a.k == kNone || a.k == kStr)) {
+			return false, nil
+		}
+	}
 	if a.k == kFloat || b.k == kFloat || a.k == kFunc || b.k == kFunc || a.k == kObj || b.k == kObj {
 		return false, errUnknown
 	}
@@ -327,9 +364,15 @@ func mCompare(op string, a, b V) (V, error) {
 		return vBool(eq == (op == "==")), nil
 	case "<", "<=", ">", ">=":
 		var c int
+		ra, oka := a.numRat()
+		rb, okb := b.numRat()
 		switch {
 		case a.isNum() && b.isNum():
 			c = a.i.Cmp(b.i)
+		case (a.k == kFloat || b.k == kFloat) && oka && okb:
+			c = ra.Cmp(rb)
+		case (a.k == kFloat && (b.k == kNone || b.k == kStr)) || (b.k == kFloat && (a.k == kNone || a.k == kStr)):
+			return V{}, raise("TypeError")
 		case a.k == kStr && b.k == kStr:
 			c = strings.Compare(a.s, b.s)
 		case a.k == kFloat || b.k == kFloat || a.k == kTuple || a.k == kList || b.k == kTuple || b.k == kList || a.k == kFunc || b.k == kFunc || a.k == kObj || b.k == kObj:
@@ -394,9 +437,6 @@ func mSubscript(x, i V) (V, error) {
 	switch x.k {
 	case kStr, kTuple, kList:
 		if !i.isNum() {
-			if i.k == kFloat {
-				return V{}, errUnknown
-			}
 			return V{}, raise("TypeError")
 		}
 		var n int
